@@ -31,6 +31,7 @@ class E3Config:
     die_exit0: bool = False
     liveness_choice: bool = True
     monitor: bool = False
+    term_slow: bool = False          # workers do not die promptly when terminated
     queue_scale: Optional[int] = None   # bounded Manager queues are scaled down to this many slots
     linger: tuple = ()               # nodes whose worker process never exits by itself after sending its result
 
@@ -43,7 +44,7 @@ class E3Config:
     def from_json(d):
         return E3Config(base=e2.Config.from_json(d['base']), backend=d['backend'], max_workers=d['max_workers'],
                         cpu_count=d['cpu_count'], log_mode=d['log_mode'], die_exit0=d['die_exit0'],
-                        liveness_choice=d.get('liveness_choice', True), monitor=d.get('monitor', False), linger=tuple(d.get('linger', ())), queue_scale=d.get('queue_scale'))
+                        liveness_choice=d.get('liveness_choice', True), monitor=d.get('monitor', False), linger=tuple(d.get('linger', ())), queue_scale=d.get('queue_scale'), term_slow=d.get('term_slow', False))
 
     def brief(self):
         b = self.base.brief()
@@ -56,6 +57,8 @@ class E3Config:
             b['linger'] = self.linger
         if self.queue_scale:
             b['queue_scale'] = self.queue_scale
+        if self.term_slow:
+            b['term_slow'] = True
         return b
 
     @property
@@ -95,6 +98,7 @@ def run_once_e3(cfg: E3Config, chooser: Chooser, *, world_hook=None, around_run=
     world = VWorld(chooser, cpu_count=cfg.cpu_count, log_mode=cfg.log_mode,
                    die_labels=[spec.labels[i] for i in base.died], die_exit0=cfg.die_exit0,
                    liveness_choice=cfg.liveness_choice, terminate_choice=terminate_choice, threaded=threaded, queue_scale=cfg.queue_scale)
+    world.term_slow = cfg.term_slow
     world.linger_labels = frozenset(spec.labels[i] for i in cfg.linger)
     want_method = cfg.backend
     backend_events: list = []
@@ -212,6 +216,8 @@ def run_once_e3(cfg: E3Config, chooser: Chooser, *, world_hook=None, around_run=
             import io
             # with the displays on, tqdm and the task monitor write to stderr: keep the console quiet
             quiet = contextlib.redirect_stderr(io.StringIO()) if cfg.monitor else contextlib.nullcontext()
+            if base.precached:
+                [lab.is_cached(t) for t in built.canon]
             try:
                 with quiet, (around_run(world) if around_run is not None else contextlib.nullcontext()):
                     res = lab.run_tasks(req, bust_cache=base.bust_cache, disable_progress=not cfg.monitor, disable_top=not cfg.monitor)
@@ -227,9 +233,11 @@ def run_once_e3(cfg: E3Config, chooser: Chooser, *, world_hook=None, around_run=
             if world.sched is not None:
                 world.sched.shutdown()
         metas = dict(backend.runner.metas) if backend.runner else {}
-        return Obs3(cfg=base, ref=ref, events=backend_events, world=list(U.WORLD.log), outcome=outcome,
-                    req_tasks=req, built=built, storage=storage, metas=metas, choices=chooser.choices,
-                    vworld=world, gt=gt)
+        o = Obs3(cfg=base, ref=ref, events=backend_events, world=list(U.WORLD.log), outcome=outcome,
+                 req_tasks=req, built=built, storage=storage, metas=metas, choices=chooser.choices,
+                 vworld=world, gt=gt)
+        o.lab = lab
+        return o
     finally:
         lt_process.run_or_load_task = orig_rol
         MemStorage.READ_HOOK = None
